@@ -275,11 +275,21 @@ func (c *cfgFloat) toUint(*options) (uint64, error) {
 	if c.f > math.MaxUint64 {
 		return 0, ErrOverflow
 	}
+	// math.MaxUint64 is not a float64: the comparison above uses 2^64, which
+	// does not fit either; NaN fails every comparison
+	if math.IsNaN(c.f) || c.f >= math.MaxUint64 {
+		return 0, ErrOverflow
+	}
 	return uint64(c.f), nil
 }
 
 func (c *cfgFloat) toInt(*options) (int64, error) {
 	if c.f < math.MinInt64 || math.MaxInt64 < c.f {
+		return 0, ErrOverflow
+	}
+	// math.MaxInt64 is not a float64: the comparison above uses 2^63, which
+	// does not fit either; NaN fails every comparison
+	if math.IsNaN(c.f) || c.f >= math.MaxInt64 {
 		return 0, ErrOverflow
 	}
 	return int64(c.f), nil
